@@ -2,8 +2,7 @@
 import importlib, glob, os, sys
 V = os.path.dirname(os.path.dirname(os.path.abspath(__file__)))
 bad = 0
-for p in sorted(glob.glob(os.path.join(V, "mc", "checks", "C*.py"))):
-    name = os.path.basename(p)[:-3]
+for name in open(os.path.join(V, "claimed.txt")).read().split():
     try:
         m = importlib.import_module("mc.checks." + name)
         if hasattr(m, "selftest"):
